@@ -88,6 +88,7 @@ type Obs struct {
 	ReaderEOFs               int
 	UnreadAfterUnread        int
 	Faults                   map[string]int    // fault kind -> times fired in this run
+	SubRuns                  int               // simulated runs aggregated in this observation (0: it is one run)
 	Extra                    map[string]string // property specific observations
 	Live                     interface{}       // live objects for property-specific oracles (not serialised)
 }
@@ -98,6 +99,7 @@ type Finding struct {
 	Detail  string `json:"detail"`
 	Obs     []int  `json:"obs,omitempty"`     // indices of the observations involved
 	Harness bool   `json:"harness,omitempty"` // true: machinery trouble, not a verdict
+	Narrow  *Case  `json:"narrow,omitempty"`  // the specific sub-case that fails (e.g. one fault position of an enumerated case)
 }
 
 // Regenerator is implemented by properties whose cases can be rebuilt from a
@@ -202,3 +204,13 @@ var rules = map[string]string{}
 
 // RuleFor returns the evidence "rule" text a property registered.
 func RuleFor(id string) string { return rules[id] }
+
+var exhaustive = map[string]func(tier string) map[string]int{}
+
+// ExhaustiveSpaces returns the finite sub-spaces (case kind -> size) a property enumerates completely in a tier.
+func ExhaustiveSpaces(id, tier string) map[string]int {
+	if f := exhaustive[id]; f != nil {
+		return f(tier)
+	}
+	return nil
+}
